@@ -128,6 +128,11 @@ def run_groups(groups, envs, exe, wd, checks, res, extra):
                 cid = "%s.%d.%s" % (g["gid"], vi, order)
                 cases.append((cid, root, "D", order, bytes(data).hex()))
                 meta[cid] = (g, vec, order, bytes(data))
+                if "compat" in checks and vi >= 1 and order == ("L", "B")[vi % 2]:
+                    # ... and once more into an object that still holds the previous vector's value
+                    cidr = cid + ".R"
+                    cases.append((cidr, root, "R", order, bytes(data).hex()))
+                    meta[cidr] = (g, vec, order, bytes(data))
                 if overfill and order == "L":
                     cid2 = cid + ".O"
                     cases.append((cid2, root, "O", order, bytes(data).hex()))
@@ -253,7 +258,7 @@ def judge(cid, r, env, g, vec, order, data, checks, res):
                                          "spec_decoder": (vec["verdict"] + " " + vec.get("reason", "")).strip()})
         return
     if "compat" in checks and not op_overfill:
-        _n(res, "compat")
+        _n(res, "compat_into_populated" if cid.endswith(".R") else "compat")
         if not ok:
             _fail(res, "compat", env, g, vec, "C++ decode<%s> of the canonical image %s returned false"
                   % (order, data.hex()), **kw)
